@@ -1,11 +1,12 @@
 """C12 - a failed edit leaves the target tree untouched and still editable."""
-from contracts import k_modifying, k_order, k_options
+from contracts import k_modifying, k_order, k_options, k_view
 from pyvc.contract import verify_all
 from pyvc import native
 
 
 def run(rep, tier, seed):
-    verify_all(rep, k_modifying.specs('C12'))
+    # the dispatchers: a handler's refusal either propagates or falls back to raw with the code preserved beforehand
+    verify_all(rep, k_modifying.specs('C12') + k_view.dispatcher_specs('C12'))
     k_modifying.usage_structural(rep, 'C12')
     k_order.c12_handlers(rep, 'C12')
     k_options.validators_finite(rep, 'C12')   # an out-of-range option value is screened before the edit starts
